@@ -102,6 +102,12 @@ class ModuleTranslator:
             raise Unsupported('constant %s of type %s' % (name, t))
         if t == 'regex':
             return self.ctx.mods[owner_mod].regex_const(name, value), 'regex'
+        if t == 'numdb':
+            import stdnum.numdb
+            for rname, obj in stdnum.numdb._open_databases.items():
+                if obj is value:
+                    return self.ctx.registry_ref(rname, self), 'numdb'
+            raise Unsupported('registry object %s of unknown origin' % name)
         if t in ('str', 'int', 'bool', 'none') and (not isinstance(value, str) or len(value) <= 40):
             return lean_value(value, t), t
         if t == 'list[?]':
@@ -288,11 +294,39 @@ class ModuleTranslator:
                     v = getattr(self.mod, node.id, None)
                     if isinstance(v, types.ModuleType) and v.__name__.startswith('stdnum.') and not self._is_call_prefix(node):
                         add(v)
-                if isinstance(node, ast.Call) and isinstance(node.func, ast.Name) and node.func.id == 'get_cc_module' and len(node.args) == 2 \
-                        and isinstance(node.args[1], ast.Constant):
-                    for cc, mn in self.ctx.cc_table(node.args[1].value):
-                        if mn not in uni:
-                            uni.append(mn)
+            # module values produced by functions of this file (e.g. `_get_cc_module(cc)`): evaluate the real
+            # function on every candidate key; the translated function maps every other key to None as well
+            # (its only source of modules is the tabulated util.get_cc_module), which the differential run checks
+            import pkgutil
+            import stdnum
+            cands = [n for _l, n, _p in pkgutil.iter_modules(stdnum.__path__)] + ['el', 'xi', 'eu', 'im', 'gr', 'gb']
+            cands = list(dict.fromkeys(cands + [c.upper() for c in cands]))
+            direct_gcc = False
+            for fname, fn in self.funcs.items():
+                uses = [n for n in ast.walk(fn) if isinstance(n, ast.Call) and isinstance(n.func, ast.Name) and n.func.id == 'get_cc_module']
+                if not uses:
+                    continue
+                obj = getattr(self.mod, fname, None)
+                nargs = len(fn.args.args)
+                if isinstance(obj, types.FunctionType) and nargs == 1:
+                    saved = {k: dict(v) for k, v in vars(self.mod).items() if isinstance(v, dict) and k in self.cache_globals()}
+                    for cc in cands:
+                        try:
+                            add(obj(cc))
+                        except Exception:
+                            pass
+                    for k, v in saved.items():
+                        getattr(self.mod, k).clear()
+                        getattr(self.mod, k).update(v)
+                else:
+                    direct_gcc = True
+            if direct_gcc:
+                for node in ast.walk(self.tree):
+                    if isinstance(node, ast.Call) and isinstance(node.func, ast.Name) and node.func.id == 'get_cc_module' and len(node.args) == 2 \
+                            and isinstance(node.args[1], ast.Constant):
+                        for cc, mn in self.ctx.cc_table(node.args[1].value):
+                            if mn not in uni:
+                                uni.append(mn)
             self._universe = uni
         return self._universe
 
@@ -364,6 +398,10 @@ class ModuleTranslator:
         raise Unsupported('call of %s (%s)' % (n, type(obj).__name__))
 
     def call_module_func(self, target, meth, e, ft):
+        if target == 'stdnum.numdb' and meth == 'get':
+            if len(e.args) == 1 and isinstance(e.args[0], ast.Constant) and isinstance(e.args[0].value, str) and not e.keywords:
+                return (self.ctx.registry_ref(e.args[0].value, self), 'numdb')
+            raise Unsupported('numdb.get with non-literal name')
         mod = sys.modules.get(target) or importlib.import_module(target)
         obj = getattr(mod, meth, None)
         if isinstance(obj, types.FunctionType):
@@ -436,7 +474,8 @@ class ModuleTranslator:
             sig.done = True
 
     def emit(self):
-        imports = sorted(('ccmods' if d == '__ccmods__' else self.ctx.mods[d].ns) for d in self.deps if d != self.name)
+        imports = sorted(('ccmods' if d == '__ccmods__' else ('db_' + d[6:].replace('/', '_')) if d.startswith('__db__') else self.ctx.mods[d].ns)
+                         for d in self.deps if d != self.name)
         head = 'import PyRt\n' + ''.join('import Gen.%s\n' % i for i in imports)
         head += 'open Py\nset_option linter.unusedVariables false\nnamespace Gen.%s\n\n' % self.ns
         body = '\n\n'.join(list(self.consts.values()) + self.outputs)
@@ -456,6 +495,7 @@ class Context(Ctx):
         super().__init__(profile)
         self.cc_tables = {}
         self.extra_today = set()
+        self.registries = {}
 
     def cc_table(self, attr):
         """[(package name, module name)] for which util.get_cc_module(package, attr) is a module (evaluated)"""
@@ -473,6 +513,43 @@ class Context(Ctx):
                     rows.append((name, r.__name__))
             self.cc_tables[attr] = rows
         return self.cc_tables[attr]
+
+    def registry_ref(self, rname, mt):
+        """Lean constant holding the parsed registry `rname` (tree produced by the real reader on the current file)"""
+        if rname not in self.registries:
+            import stdnum.numdb
+            db = stdnum.numdb.get(rname)
+            n = sum(1 for _ in self._walk_entries(db.prefixes))
+            if n > 12000:
+                raise Unsupported('registry %s too large to embed (%d entries)' % (rname, n))
+            self.registries[rname] = db.prefixes
+        mt.deps.add('__db__' + rname)
+        return 'Gen.db_%s.db' % rname.replace('/', '_')
+
+    def _walk_entries(self, prefixes):
+        for e in prefixes:
+            yield e
+            for c in self._walk_entries(e[4]):
+                yield c
+
+    def emit_registry(self, rname):
+        """{file name: text}: the registry as the raw text of the current .dat file, parsed by the Lean model of
+        the numdb reader (Spec.NumDB.readText; its agreement with the Python reader on every shipped file is
+        part of the C10 correspondence run)"""
+        import stdnum
+        path = os.path.join(os.path.dirname(stdnum.__file__), rname + '.dat')
+        text = open(path, encoding='utf-8').read()
+        lit = text.replace('\\', '\\\\').replace('"', '\\"').replace('\n', '\\n').replace('\r', '\\r').replace('\t', '\\t')
+        ns = 'db_' + rname.replace('/', '_')
+        out = ['import PyRt', 'import Spec.NumDB', 'namespace Gen.%s' % ns, '',
+               '/-- the current text of `stdnum/%s.dat` -/' % rname,
+               'def text : String := "%s"' % lit, '',
+               '/-- the registry tree: the model reader applied to the file text -/',
+               'def db : List Spec.NumDB.Entry :=',
+               '  match Spec.NumDB.readText (Py.ofString text) with',
+               '  | .ok t => t',
+               '  | .error _ => []', '', 'end Gen.%s' % ns]
+        return {'%s.lean' % ns: '\n'.join(out) + '\n'}
 
     def emit_ccmods(self):
         lines = ['import PyRt', 'open Py', 'namespace Gen.ccmods', '',
@@ -637,7 +714,12 @@ def main():
     ccpath = os.path.join(gen_dir, 'ccmods.lean')
     keep.add(os.path.abspath(ccpath))
     written += write_if_changed(ccpath, ctx.emit_ccmods())
-    root = 'import Gen.ccmods\n' + ''.join('import Gen.%s\n' % ctx.mods[n].ns for n in ctx.mods)
+    for rname in sorted(ctx.registries):
+        for fname, text in ctx.emit_registry(rname).items():
+            rp = os.path.join(gen_dir, fname)
+            keep.add(os.path.abspath(rp))
+            written += write_if_changed(rp, text)
+    root = 'import Gen.ccmods\n' + ''.join('import Gen.db_%s\n' % r.replace('/', '_') for r in sorted(ctx.registries)) + ''.join('import Gen.%s\n' % ctx.mods[n].ns for n in ctx.mods)
     written += write_if_changed(os.path.join(args.out, 'Gen.lean'), root)
     if os.path.isdir(gen_dir):
         for fn in os.listdir(gen_dir):
